@@ -10,6 +10,25 @@ static void witness(const std::string& name, cs::Ctx& ctx) {
     serializeJson(d, out);
     if (out != want) ctx.fail("alias", std::string(what) + " produced " + out + ", a deep snapshot copy gives " + want);
   };
+  if (name == "array_subscript_non_index_variant") {
+    // JsonArray::operator[](variant) with a key that is no index designates nothing: no padding
+    lib::Ledger ledger;
+    ledger.byte_limit = 1u << 20;  // on the unrepaired tree the padding stops here instead of exhausting memory
+    JsonDocument d(&ledger);
+    JsonArray a = d.to<JsonArray>();
+    a.add(1);
+    JsonDocument k;
+    k.set(-1);
+    a[k.as<JsonVariantConst>()] = 5;
+    k.set("x");
+    a[k.as<JsonVariantConst>()] = 6;
+    k.set(1.5);
+    a[k.as<JsonVariantConst>()] = 7;
+    if (!a[k.as<JsonVariantConst>()].isNull()) ctx.fail("no-such-key", "a[1.5] is not null");
+    if (d.size() != 1 || d.overflowed())
+      ctx.fail("no-such-key", "a[variant that is not an index] = value changed the array: size " + std::to_string(d.size()) + ", overflowed " + std::to_string(d.overflowed()));
+    return;
+  }
   if (name == "alias_array_into_own_element") {
     JsonDocument d;
     deserializeJson(d, "[1,2]");
